@@ -12,6 +12,7 @@ def _graphs(seed, nrandom=6):
     gs.append(("agg-nest", {"a": ("build", []), "b": ("build", []), "g1": ("agg", ["a", "b"]), "g2": ("agg", ["g1"]), "t": ("build", ["g2"])}, ["t"]))
     gs.append(("agg-empty", {"g": ("agg", []), "t": ("build", ["g"])}, ["t"]))
     gs.append(("shared+explicit", {"a": ("build", []), "b": ("build", ["a"]), "c": ("build", ["a", "b"])}, ["c", "a", "b"]))
+    gs.append(("dup-dependency", {"a": ("build", []), "b": ("build", ["a"]), "c": ("build", ["a", "a", "b", "b"]), "g": ("agg", ["c", "c"]), "d": ("build", ["g"])}, ["d"]))
     gs.append(("late-requester", dict([("b", ("build", []))] + [("a%d" % i, ("agg", ["b" if i == 0 else "a%d" % (i - 1)])) for i in range(25)] + [("top", ("build", ["b", "a24"]))]), ["top"]))
     rnd = random.Random(seed)
     for k in range(nrandom):
